@@ -24,6 +24,8 @@ type ESpec struct {
 	CP      bool  `json:"cp,omitempty"`
 	Cfg     bool  `json:"cfg,omitempty"`
 	Ty      uint8 `json:"ty,omitempty"` // raft.LogType (0 command, 1 noop, 4 barrier, 5 configuration)
+	// Err: the application's IsCheckpointFn fails on this entry
+	Err bool `json:"err,omitempty"`
 }
 
 type HOp struct {
@@ -88,6 +90,9 @@ func genHistory(t *rapid.T, maxOps int) ClusterCase {
 			if i == 0 {
 				op.Entries[0].Cfg = rapid.Bool().Draw(t, "cfg")
 				op.Entries[0].CP = false
+			} else if rapid.IntRange(0, 11).Draw(t, "cbErr") == 0 {
+				// the application's IsCheckpointFn fails on one entry of this batch
+				op.Entries[rapid.IntRange(0, m-1).Draw(t, "cbErrAt")].Err = true
 			}
 			c.Ops = append(c.Ops, op)
 		case k < 70:
@@ -163,7 +168,9 @@ func (e ESpec) mk(idx, term uint64) *raft.Log {
 		l.Type = raft.LogConfiguration
 	}
 	d := kit.Fill(e.DataLen, e.Seed, idx, uint8(term))
-	if e.CP {
+	if e.Err {
+		d = append(append([]byte{}, errPrefix...), d...)
+	} else if e.CP {
 		d = append([]byte("CP"), d...)
 	} else if len(d) >= 2 && d[0] == 'C' && d[1] == 'P' {
 		d[0] = 'c'
@@ -181,8 +188,26 @@ func (s *sim) leaderAppend(es []ESpec) *common.Failure {
 	for i, e := range es {
 		logs = append(logs, e.mk(start+uint64(i), s.term))
 	}
+	hasErrEntry := false
+	for _, e := range es {
+		hasErrEntry = hasErrEntry || e.Err
+	}
+	lastBefore, _ := ld.inner.LastIndex()
 	if err := ld.Store(logs); err != nil {
+		if hasErrEntry && errors.Is(err, errCheckpointFn) {
+			// the application's callback failed: the append is refused as a whole and leaves no trace
+			if lastAfter, _ := ld.inner.LastIndex(); lastAfter != lastBefore {
+				return common.Failf("refused-append-stored", "leader %d: StoreLogs(%d..%d) returned %v yet the underlying store's last index moved from %d to %d", s.leader, start, start+uint64(len(logs))-1, err, lastBefore, lastAfter)
+			}
+			s.cls["append-refused-by-checkpoint-callback"] = true
+			return nil
+		}
 		return common.Failf("leader-store-err", "leader %d StoreLogs(%d..) = %v", s.leader, start, err)
+	}
+	if hasErrEntry {
+		// accepted although the callback failed: not for this property to judge; the batch is in the
+		// store now and the reports that follow are held to the usual rule
+		s.cls["callback-error-but-stored"] = true
 	}
 	for _, l := range logs {
 		if ok, _ := isCheckpoint(l); ok {
